@@ -556,3 +556,111 @@ func TestConcurrentScope(t *testing.T) {
 	rec.Class("concurrent_scope_verdicts")
 	rec.NT(stats.HashS("concurrent-scope", fmt.Sprint(shard)))
 }
+
+// TestConcurrentCorpus (C06): the corpus objects on which some lint reports are linted by eight goroutines at
+// once, every goroutine walking them in another rotation, so that any two lints meet in time on the same kind of
+// object. Every result obeys the prefix rule of its lint's name, and every digest equals the sequential one.
+func TestConcurrentCorpus(t *testing.T) {
+	prop := os.Getenv("VERIF_PROPERTY")
+	if prop == "" {
+		prop = "C06"
+	}
+	rec := stats.New(prop)
+	t.Cleanup(rec.Flush)
+	co := gen.LoadCorpus()
+	shard, nshards := stats.Shard()
+	g := lint.GlobalRegistry()
+	type item struct {
+		c     engine.Case
+		alone string
+	}
+	var items []item
+	allowed := func(name string, st lint.LintStatus) bool {
+		switch st {
+		case lint.Notice:
+			return strings.HasPrefix(name, "n_")
+		case lint.Warn:
+			return strings.HasPrefix(name, "w_")
+		case lint.Error:
+			return strings.HasPrefix(name, "e_")
+		}
+		return true
+	}
+	statusWord := map[lint.LintStatus]string{lint.Notice: "info", lint.Warn: "warn", lint.Error: "error"}
+	for i := shard; i < len(co.Certs); i += nshards {
+		o := co.Certs[i]
+		c, ok := gen.ParseCert(o.DER)
+		if !ok {
+			continue
+		}
+		rs := zlint.LintCertificateEx(c, g)
+		if rs.ErrorsPresent || rs.WarningsPresent || rs.NoticesPresent {
+			items = append(items, item{engine.Case{Kind: gen.Cert, DER: o.DER, Base: o.Name}, engine.Digest(rs)})
+		}
+		if len(items) >= stats.Scale(60, 400) {
+			break
+		}
+	}
+	for i, o := range co.CRLs {
+		if c, ok := gen.ParseCRL(o.DER); ok && i%nshards == shard%len(co.CRLs) {
+			items = append(items, item{engine.Case{Kind: gen.CRL, DER: o.DER, Base: o.Name}, engine.Digest(zlint.LintRevocationListEx(c, g))})
+		}
+	}
+	if len(items) == 0 {
+		t.Skip("no reporting objects")
+	}
+	const W = 8
+	runtime.GOMAXPROCS([]int{2, 4, 8, 16}[shard%4])
+	rounds := stats.Scale(2, 10)
+	errs := make(chan string, W)
+	var wg sync.WaitGroup
+	start := make(chan struct{})
+	for w := 0; w < W; w++ {
+		wg.Add(1)
+		go func(w int) {
+			defer wg.Done()
+			<-start
+			for r := 0; r < rounds; r++ {
+				for k := range items {
+					it := items[(k*(2*w+1)+w*7+r)%len(items)]
+					var rs *zlint.ResultSet
+					if it.c.Kind == gen.Cert {
+						c, ok := gen.ParseCert(it.c.DER)
+						if !ok {
+							continue
+						}
+						rs = zlint.LintCertificateEx(c, g)
+					} else {
+						c, ok := gen.ParseCRL(it.c.DER)
+						if !ok {
+							continue
+						}
+						rs = zlint.LintRevocationListEx(c, g)
+					}
+					for n, res := range rs.Results {
+						if !allowed(n, res.Status) && !stats.IsKnown("C06", "severity|"+n+"|"+statusWord[res.Status]) {
+							errs <- fmt.Sprintf("severity|%s|%s\x00%s reports %s on %s while other goroutines lint (its name allows %s only)", n, statusWord[res.Status], n, statusWord[res.Status], it.c.Base, n[:2])
+							return
+						}
+					}
+					if d := engine.Digest(rs); d != it.alone {
+						errs <- fmt.Sprintf("corpus-differs-from-sequential\x00%s: verdicts %s while other goroutines lint, %s alone", it.c.Base, d, it.alone)
+						return
+					}
+				}
+			}
+		}(w)
+	}
+	close(start)
+	wg.Wait()
+	close(errs)
+	for e := range errs {
+		p := strings.SplitN(e, "\x00", 2)
+		if rec.Report("c10", p[0], p[1], program{}) {
+			t.Fatalf("%s: %s", p[0], p[1])
+		}
+	}
+	rec.EvalN(int64(W * rounds * len(items)))
+	rec.Class("concurrent_corpus_runs")
+	rec.NT(stats.HashS("concurrent-corpus", fmt.Sprint(shard)))
+}
